@@ -12,6 +12,10 @@ Lines without '=' (the statement does not say whether they define a key): both r
 document (Conf!RunR); the shard "bare" writes the same key in every combination of the forms k=v / k= / k, in one
 block and in a re-opened one, beside a bare key that is bound nowhere, each document in three layouts (seeded,
 plain, inline <a>k</a>); answers that fit neither reading are a wrong result.
+Lines with an empty key ('= v', '==', '=', blanks around the '='): written lines, hence entries of the line listing of
+their domain (Conf!EmptyKeyLinesAreLinesOnly); the shard "emptykey" writes every form between, before and after
+bindings, nested and in re-opened domains, in three layouts; a success that answers like the document without these
+lines is silent-partial:line-with-empty-key-not-listed.  Whether "" is a key is not judged, only recorded.
 Second observation: after the first pass of questions the driver does to every listing / map it received what a
 caller may do to a value it owns (sort, rewrite, reuse, clear; also to the buffer it had handed to InitFromBytes)
 and asks again; Oracle_Conf!Again requires the same answers (Conf.tla, "Sessions").
@@ -61,6 +65,10 @@ def shards(ctx):
         # bare key bound nowhere; every document in three layouts
         shard("bare", N1, K1, '{"12", ""}', noise="NoiseBare", maxlen=7, depth=1, opens=2, kv=3, nnoise=3, unclosed=0,
               keep=450 if q else None, lays=("", "plain", "inline")),
+        # lines whose key part is empty or blanks only ("=", "==", "= v", "= x=y", "=#c", ...) between bindings, nested and in
+        # re-opened domains; every document in three layouts
+        shard("emptykey", N2, K1, '{"1", ""}', noise="NoiseEmptyKey", maxlen=6, depth=2, opens=2, kv=2, nnoise=2, unclosed=3,
+              keep=400 if q else None, lays=("", "plain", "inline")),
         # typed getters over the whole vocabulary
         shard("typed", N1, K2, TYPED, maxlen=4, depth=1, opens=1, kv=2, unclosed=1),
         # XML-hostile characters inside values and comments
@@ -229,6 +237,10 @@ WHAT = {
                                       "comment, but the rest of the document is missing (the XML tokenizer's error is discarded)",
     "silent-partial:mismatched-close": "success returned although a closing tag matches no open domain, and bindings written "
                                        "after it are retrievable nowhere",
+    "silent-partial:line-with-empty-key-not-listed": "success returned, but the written lines whose key part is empty ('= v', '==', "
+                                                     "'=', blanks before the '=') are missing from the line listing of their domain "
+                                                     "while everything else is answered as written: part of the document was "
+                                                     "dropped silently",
     "silent-partial:unclosed-domain": "success returned for a document that ends inside a domain, with part of it missing",
     "silent-partial:line-over-64KiB": "success returned for a well-formed document with a line longer than 64 KiB, but that line "
                                       "and the rest of its block are missing (the line scanner's error is discarded)",
@@ -260,7 +272,14 @@ def bare_target(rec):
             and len({l["k"] for l in rec["lines"] if l["t"] == "open"}) == 1)
 
 
-def selftest(ctx, accepted_doc, fuzz_line, bare_doc=None):
+def nokey_target(rec):
+    """A record whose document has a line with an empty key and a binding in the same domain, parsed successfully."""
+    return (rec["class"] == "ok" and not any(l["t"] in ("key", "hos", "hcomment") for l in rec["lines"])
+            and any(any(x.startswith("=") for x in e["lines"]) and any(not x.startswith("=") for x in e["lines"])
+                    for e in rec["q"]))
+
+
+def selftest(ctx, accepted_doc, fuzz_line, bare_doc=None, nokey_doc=None):
     """Corrupt recorded observations; the oracle must flag exactly the corrupted records."""
     base = json.loads(accepted_doc)
     n = selftest_target(base)
@@ -322,6 +341,28 @@ def selftest(ctx, accepted_doc, fuzz_line, bare_doc=None):
             for e in q_:
                 e["map"] = [[k, x] for k, x in e["map"] if k != "k3"]
         cases.append(("bare-key-listed-but-not-in-map", b2, ("wrong-result:", ":document-with-key-only-lines")))
+    if nokey_doc is not None:
+        n0 = json.loads(nokey_doc)
+        cases.append(("emptykey-original", n0, ""))
+        n1 = json.loads(nokey_doc)          # every line with an empty key missing from the line listings (both passes)
+        for q_ in (n1["q"], n1["q2"]):
+            for e in q_:
+                e["lines"] = [x for x in e["lines"] if not x.startswith("=")]
+        cases.append(("emptykey-lines-not-listed", n1, "silent-partial:line-with-empty-key-not-listed"))
+        n2 = json.loads(nokey_doc)          # only the first of them missing / one of them listed twice: not that class
+        for q_ in (n2["q"], n2["q2"]):
+            for e in q_:
+                j = [i for i, x in enumerate(e["lines"]) if x.startswith("=")]
+                if j:
+                    e["lines"] = e["lines"][:j[0]] + [e["lines"][j[0]]] * 2 + e["lines"][j[0] + 1:]
+        cases.append(("emptykey-line-listed-twice", n2, ("wrong-result:GetDomainLine", "")))
+        n3 = json.loads(nokey_doc)          # a key "" in the key listing and the map: recorded, not judged
+        for q_ in (n3["q"], n3["q2"]):
+            for e in q_:
+                if any(x.startswith("=") for x in e["lines"]):
+                    e["keys"] = [""] + e["keys"]
+                    e["map"] = [["", "zz"]] + e["map"]
+        cases.append(("emptykey-listed-as-key-is-not-judged", n3, ""))
     if fuzz_line is not None:
         f0 = json.loads(fuzz_line)
         cases.append(("fuzz-original", f0, ""))
@@ -405,7 +446,9 @@ def run(ctx):
         "documents of the verdict grammar: keys only inside domains; key names, sub-domain names disjoint; lines without '=' "
         "(key-only) are entries of the line listing; whether they define a key (with the empty value, taking part in 'later "
         "duplicates win') or not is not fixed by the statement: either reading is accepted, but one reading for all answers about "
-        "one document; lines with an empty key are entries of the line listing at most",
+        "one document; lines with an empty key ('= v', '==', '=', blanks before the '=') are written lines: entries of the line "
+        "listing of their domain, each of them, in place; that the empty text is a key the statement does not say: an entry '' of a "
+        "key listing / map and the answer to <domain><> are recorded (empty_key_observations), not judged",
         "typed getters are judged over a vocabulary with undisputed parses (decimal integers, true/false, plain decimals); "
         "\"0\"/\"1\" as booleans are not judged; int is 64-bit (amd64)",
         "the oracle trusts the driver only for the calls themselves: the parsed text must equal the TLA+ rendering of the abstract lines",
@@ -545,7 +588,8 @@ def run(ctx):
     observations = {}
     judged_full = 0
     nontrivial = set()
-    accepted_doc = bare_doc = None
+    accepted_doc = bare_doc = nokey_doc = None
+    ek_obs = {}
     readings = {}
     samples = []
     hexes = None
@@ -564,6 +608,11 @@ def run(ctx):
                     if bare_doc is None and v["sig"] == "" and v["rd"] == "defines" and origin[i] == "bare" \
                             and bare_target(json.loads(rec_lines[i])):
                         bare_doc = rec_lines[i]
+                if v.get("ek"):
+                    ek_obs[v["ek"]] = ek_obs.get(v["ek"], 0) + 1
+                    if nokey_doc is None and v["sig"] == "" and v["cls"] == "wellformed" and origin[i] == "emptykey" \
+                            and nokey_target(json.loads(rec_lines[i])):
+                        nokey_doc = rec_lines[i]
                 po = per_origin.setdefault(origin[i], {"judged": 0, "rejected": 0})
                 po["judged"] += 1
                 if v["sig"]:
@@ -628,10 +677,14 @@ def run(ctx):
         raise Inconclusive("no accepted document writes a key with '=' and bare afterwards beside a bare key bound nowhere: "
                            "the duplicate forms of the shard 'bare' were not exercised (readings %s)" % readings)
 
+    if nokey_doc is None and not ctx.violations:
+        raise Inconclusive("no accepted well-formed document has a line with an empty key beside a binding: the shard "
+                           "'emptykey' was not exercised (%s)" % ek_obs)
+
     # ---- 5. binding self-test: corrupted records must be rejected, and only those
     st = st_fut = None
     if accepted_doc is not None:
-        st_fut = pool.submit(selftest, ctx, accepted_doc, next((l for l in fuzz_lines if '"class":"panic"' not in l), None), bare_doc)
+        st_fut = pool.submit(selftest, ctx, accepted_doc, next((l for l in fuzz_lines if '"class":"panic"' not in l), None), bare_doc, nokey_doc)
 
     app_st = None
     if app_accepted is not None:
@@ -683,6 +736,10 @@ def run(ctx):
                                                       "the empty value / is only a line) under which every answer agrees with the "
                                                       "reference; 'either' = the two readings coincide on the document; 'neither' is a "
                                                       "wrong result"),
+        "empty_key_observations": dict(ek_obs, note="documents with lines whose key is empty ('= v', '==', '='), parsed successfully: "
+                                                     "whether a key listing / map names a key '' and what <domain><> answers "
+                                                     "(GetStringWithDef with default); recorded, not judged -- that every such line is "
+                                                     "in the line listing of its domain IS judged"),
         "random_inputs": {"n": nfuzz, "by_generator_and_outcome": fuzz_tally},
         "selftest_corrupted_records": st,
         "second_observation": "every document parsed successfully is asked everything twice; in between the driver sorts / "
